@@ -134,7 +134,8 @@ struct World {
   uint64_t nalloc = 0;         // allocations seen while armed
   uint64_t alloc_bytes = 0;
   uint64_t gc_forced = 0, gc_natural = 0, gc_max_forced = 0;
-  enum GcMode { GC_NONE, GC_POINTS, GC_EVERY, GC_WINDOW, GC_BERNOULLI, GC_AFTERGROW } gc_mode = GC_NONE;
+  enum GcMode { GC_NONE, GC_POINTS, GC_EVERY, GC_WINDOW, GC_BERNOULLI, GC_AFTERGROW, GC_AFTERBIG } gc_mode = GC_NONE;
+  uint64_t gc_big_bytes = 4096; int gc_big_k = 2; int gc_big_left = 0;   // AFTERBIG: collect at the k allocations after one of >= gc_big_bytes
   std::vector<uint64_t> gc_points; size_t gc_pi = 0;
   uint64_t gc_n = 0, gc_off = 0, gc_a = 0, gc_w = 0, gc_p1024 = 0;
   Rng gc_rng{1};
@@ -521,6 +522,7 @@ static bool gc_should_force(uint64_t idx) {
     case World::GC_WINDOW: return idx >= W.gc_a && idx < W.gc_a + W.gc_w;
     case World::GC_BERNOULLI: return (W.gc_rng.next() & 1023) < W.gc_p1024;
     case World::GC_AFTERGROW: if (W.grew) { W.grew = false; return true; } return false;
+    case World::GC_AFTERBIG: if (W.gc_big_left > 0) { W.gc_big_left--; return true; } return false;
   }
   return false;
 }
@@ -531,7 +533,10 @@ static void hook_alloc(sexp ctx, size_t size) {
   uint64_t idx = W.nalloc++;
   W.alloc_bytes += size;
   if (size > W.largest_req) W.largest_req = size;
-  if (gc_should_force(idx)) {
+  bool force = gc_should_force(idx);
+  // (a big allocation -- a grown VM stack, a vector, a string buffer -- arms collections at the allocations that follow it)
+  if (W.gc_mode == World::GC_AFTERBIG && size >= W.gc_big_bytes) W.gc_big_left = W.gc_big_k;
+  if (force) {
     W.forcing = true;
     W.event("gc-force alloc=%llu size=%zu step=%d", (unsigned long long)idx, size, W.cur_step);
     sexp_gc(ctx, NULL);
@@ -1375,6 +1380,7 @@ static void configure_world(const js::Value& plan) {
     else if (mode == "window") { W.gc_mode = World::GC_WINDOW; W.gc_a = gc->geti("a", 0); W.gc_w = gc->geti("w", 1); }
     else if (mode == "bernoulli") { W.gc_mode = World::GC_BERNOULLI; W.gc_p1024 = gc->geti("p1024", 16); W.gc_rng = Rng(gc->geti("seed", 1)); }
     else if (mode == "aftergrow") { W.gc_mode = World::GC_AFTERGROW; }
+    else if (mode == "afterbig") { W.gc_mode = World::GC_AFTERBIG; W.gc_big_bytes = gc->geti("min_bytes", 4096); W.gc_big_k = (int)gc->geti("k", 2); }
     W.gc_scope_step = (int)gc->geti("scope_step", -1);
     W.heapcheck_every = (int)gc->geti("heapcheck_every", 0);
     W.poison = gc->getb("poison", true);
